@@ -482,6 +482,32 @@ def _reachable_without(body, node, blocked_edges):
     return node in r
 
 
+def check_retirement_wait(ctx):
+    """flush() must not acknowledge while another flusher still holds retirements it took from the queue (their markers are
+    not durable yet): flush_pending_deletions looks at the queue only after it has taken the pass mutex
+    (RetirementQueue.flush), so a flusher that finds the queue empty has waited for the pass in progress"""
+    inst = "C02.ack/retirement-wait"
+    b = ctx.fn("write_buffer::flush_pending_deletions", inst)
+    if b is None:
+        return
+    def on(name):
+        return lambda bb, n: R.recv_expr(bb, n).has_field("RetirementQueue", name) or R.recv_expr(bb, n).has_field(None, name)
+    fl = ctx.sites(b, R.call("Mutex::lock").filter(on("flush"), "retirement_queue.flush.lock()"), inst, exact=1)
+    pd = ctx.sites(b, R.call("Mutex::lock").filter(on("pending"), "retirement_queue.pending.lock()"), inst, floor=1)
+    R.dom(ctx, inst, b, fl, pd, "the queue is inspected only under the retirement-pass mutex", a_desc="retirement_queue.flush.lock()")
+    rets = [n.id for n in b.nodes if n.kind == "assign" and not n.ev["dst"]["p"] and n.ev["dst"]["l"] == 0]
+    R.dom(ctx, inst, b, fl, rets, "every answer (including `nothing pending`) is given after waiting for the pass in progress", a_desc="retirement_queue.flush.lock()")
+    # the guard is held until the end (bound to a named local, not dropped at once)
+    for x in fl:
+        d = b.nodes[x].ev.get("dest", {}).get("l")
+        ctx.check(d is not None and (b.local_name(d) or "").startswith("_") or b.local_name(d), inst, "HELD", b.path, "the pass mutex guard is bound for the whole function", b.where(x))
+        drops = [n.id for n in b.nodes if n.kind == "drop" and n.ev.get("pl", {}).get("l") == d]
+        pd_after = R.call("write_buffer::process_deletions")(b)
+        for dr in drops:
+            r, _ = A.reach(b, A.succs(b, dr), sensitive=False)
+            ctx.check(not any(p in r for p in pd_after), inst, "HELD", b.path, "the pass mutex is not released before the retirements are processed", b.where(dr))
+
+
 def check_journal_position(ctx):
     """an acknowledged batch stays safe against a later torn journal write only if every new journal record goes to the slot
     that does not hold the newest valid one, across restarts too (shared with C04.position)"""
@@ -728,4 +754,5 @@ def check(ctx):
     check_retire(ctx)
     check_successor(ctx)
     check_journal_position(ctx)
+    check_retirement_wait(ctx)
     check_drop(ctx)
